@@ -65,12 +65,12 @@ Conforms(e) ==
     [] e.op = "curl.clone" -> e.out.panic = "" /\ e.out.same_state /\ e.in.id \in DOMAIN insts
     [] e.op = "curl.absorb" ->
          /\ e.out.panic = "" /\ e.in.id \in DOMAIN insts
-         /\ e.out.err = ExpectedErr(e)
+         /\ (e.out.err = "") <=> (ExpectedErr(e) = "")     \* which error is reported is not part of C06
          /\ e.in.bad # "" => e.out.state_same             \* rejected calls leave the state untouched
          /\ e.out.src_unchanged
     [] e.op = "curl.squeeze" ->
          /\ e.out.panic = "" /\ e.in.id \in DOMAIN insts
-         /\ e.out.err = ExpectedErr(e)
+         /\ (e.out.err = "") <=> (ExpectedErr(e) = "")
          /\ e.in.bad # "" => e.out.state_same
          /\ e.in.bad = "" => /\ ObsOK(NewObs(e, insts[e.in.id]))
                              /\ AuditOK(e, insts[e.in.id])
